@@ -8,7 +8,7 @@
 //!   <contract text, spliced between signature and body; may contain `//@loop <n> key=value` sections>
 //!   //@end
 //!
-//!   //@item <file> :: <enum|struct|const|static|type> <Name> [key=value ...]      (single line)
+//!   //@item <file> :: <enum|struct|const|type> <Name> [key=value ...]      (single line)
 //!   //@frag <file> :: <impl-selector> :: <fn> :: <fragment selector> [key=value ...]
 //!   <header text: the `fn name(params) -> (r: T)` + contract for the fragment>
 //!   //@end
@@ -179,6 +179,20 @@ impl<'a> R<'a> {
                 let id = p.path.segments[0].ident.to_string();
                 if let Some(n) = self.renames.borrow().get(&id) {
                     return Some(n.clone());
+                }
+            }
+        }
+        if let Expr::Call(c) = e {
+            // (*f)(args): a call through a dereferenced function object (an `Arc<dyn Fn…>` field)
+            if self.opts.has_rw("fnptr") {
+                if let Expr::Paren(p) = &*c.func {
+                    if let Expr::Unary(u) = &*p.expr {
+                        if matches!(u.op, syn::UnOp::Deref(_)) {
+                            self.note("R15 `(*f)(args)` -> qx_call(&f, args) (prelude: the function object's own specification)");
+                            let args: Vec<String> = c.args.iter().map(|a| self.expr(a)).collect();
+                            return Some(format!("qx_call(&{}, {})", self.expr(&u.expr), args.join(", ")));
+                        }
+                    }
                 }
             }
         }
